@@ -381,11 +381,35 @@ def r7(ctx):
             expr = format_expr(sanitize_variable_names(expr, {}, aliases, template="_formulaic_{}"))
             while aliases:
                 alias, orig = aliases.popitem()
-                expr = expr.replace(alias, f"`{orig}`")
+                expr = ANY_restore
             return expr
     """)
     ctx.check(ok, "C15.R7", "Python fragments are re-spelt canonically with their back-quoted names restored", sp.where, ctx.construct(sp, text="sanitize_python_code"),
               f"sanitize_python_code: {why}")
+    # the restoration must act on whole identifiers: an alias is an identifier and may be a substring of another one
+    restores = [n for n in ast.walk(sp.node) if isinstance(n, ast.Assign) and isinstance(n.value, ast.Call) and len(n.targets) == 1 and isinstance(n.targets[0], ast.Name)
+                and n.targets[0].id == param_names(sp.node)[0]
+                and any(isinstance(x, ast.While) and any(n is y for y in ast.walk(x)) for x in ast.walk(sp.node))]
+    ctx.floor("C15.R7", len(restores), 1, "alias restoration statements")
+    for r_ in restores:
+        c = r_.value
+        plain = isinstance(c.func, ast.Attribute) and c.func.attr == "replace" and not (dotted(c.func.value) or "").startswith("re")
+        bounded = dotted(c.func) in ("re.sub", "re.subn") and c.args and any(
+            isinstance(x, ast.Constant) and isinstance(x.value, str) and ("(?<!\\w)" in x.value or "\\b" in x.value) for x in ast.walk(c.args[0])) and any(
+            isinstance(x, ast.Call) and dotted(x.func) == "re.escape" for x in ast.walk(c.args[0]))
+        ctx.check(bounded and not plain, "C15.R7", "back-quoted names are restored by replacing whole identifiers", sp.module.line(r_), ctx.construct(sp, text="alias restoration"),
+                  f"`{norm(r_)[:110]}` substitutes the alias wherever its text occurs: `exp(`x`)` becomes `e`x`p(`x`)` and a name that is a prefix of another "
+                  f"alias corrupts it; the alias must be matched between identifier boundaries (re.escape'd)")
+    # two different back-quoted names of one fragment must not share an alias (the restoration maps an alias to ONE name)
+    sv = P.func("formulaic.utils.code.sanitize_variable_names")
+    stores = [n for n in ast.walk(sv.node) if isinstance(n, ast.Assign) and isinstance(n.targets[0], ast.Subscript) and norm(n.targets[0].value) == param_names(sv.node)[2]]
+    ctx.floor("C15.R7", len(stores), 1, "alias records in sanitize_variable_names")
+    al = param_names(sv.node)[2]
+    guarded = any(isinstance(n, (ast.While, ast.If)) and any(isinstance(c_, ast.Compare) and al in norm(c_) and isinstance(c_.ops[0], (ast.In, ast.NotIn, ast.NotEq, ast.Eq))
+                                                            for c_ in ast.walk(n.test)) for n in ast.walk(sv.node))
+    ctx.check(guarded, "C15.R7", "different back-quoted names of one fragment get different aliases", sv.where, ctx.construct(sv, text="alias collision"),
+              f"`{norm(stores[0])}` records the alias without checking that it is not already the alias of another name: `a b` and `a|b` both become "
+              f"`_formulaic_a_b`, so `f(`a b`, `a|b`)` is normalised to `f(`a|b`, `a|b`)` (both arguments denote the same column)")
     fe = P.func("formulaic.utils.code.format_expr")
     ok, why = contains_any(P, fe, ["""
         def format_expr(expr):
